@@ -37,6 +37,7 @@ REQUIRED = {
         'cases-shuffled-rows': 200,
         'cases-with-gap': 500,
         'cases-with-a-logger-restarted-on-another-clock': 100,
+        'cases-with-evapotranspiration-logged-between-grid-instants': 100,
         'loads-via-cli-with-bom': 10,
         'loads-via-subprocess': 2,
         'cases-fixed-offset-zone': 100,
@@ -92,8 +93,14 @@ def gen(rng):
     et_t = [r0 + (i - 2) * rstep for i in range(n + 5)]
     rain = [(t, round(rng.choice([0, 0, rng.uniform(0, 20)]), 3)) for t in rain_t]
     et = [(t, round(rng.uniform(0, 0.5), 4)) for t in et_t]
+    finer_et = False
+    if rstep % 3 == 0 and rng.random() < 0.2:
+        # a weather station logging faster than the rain gauge: ET rows between the grid instants too
+        sub = rstep // rng.choice([2, 3]) if rstep % 2 == 0 else rstep // 3
+        et = sorted(set(et) | {(t + k * sub, round(rng.uniform(0.5, 1.0), 4)) for t in et_t for k in range(1, rstep // sub)})
+        finer_et = True
     z = [(t, round(rng.uniform(-500, 100), 2)) for t in zt]
-    flags = {'misaligned': (z0 - r0) % rstep != 0, 'zstep_differs': zstep != rstep, 'gapped': gapped, 'shuffled': False, 'restarted': restarted}
+    flags = {'misaligned': (z0 - r0) % rstep != 0, 'zstep_differs': zstep != rstep, 'gapped': gapped, 'shuffled': False, 'restarted': restarted, 'finer_et': finer_et}
     for L in (rain, et, z):
         if rng.random() < 0.3:
             rng.shuffle(L)
@@ -227,7 +234,7 @@ def check_case(ctx, case, via='function', index=0):
                 rec.hit(name, n)
         fl = case['flags']
         for name, label in (('misaligned', 'cases-misaligned-water-level'), ('zstep_differs', 'cases-different-water-level-step'),
-                            ('shuffled', 'cases-shuffled-rows'), ('gapped', 'cases-with-gap'), ('restarted', 'cases-with-a-logger-restarted-on-another-clock')):
+                            ('shuffled', 'cases-shuffled-rows'), ('gapped', 'cases-with-gap'), ('restarted', 'cases-with-a-logger-restarted-on-another-clock'), ('finer_et', 'cases-with-evapotranspiration-logged-between-grid-instants')):
             if fl.get(name):
                 rec.hit(label)
         if zone != 'UTC':
